@@ -78,6 +78,10 @@ func classify(sc *scenario, res *result) {
 			evid.Class("registered only after the request returned")
 		}
 	}
+	if (sc.Base != "" || sc.Control != "") && res.outcome == "stream" {
+		evid.Class(fmt.Sprintf("strict SETUP URLs: content-base=%s control=%q pulled", sc.Base, sc.Control))
+		nt = true
+	}
 	if sc.SDPShape != "" && res.outcome == "stream" {
 		evid.Class("SDP shape " + sc.SDPShape + ": stream served")
 		nt = true
@@ -395,6 +399,43 @@ func TestSDPShapes(t *testing.T) {
 	runBatch(t, "sdp-shape", scs)
 }
 
+// setupURLs builds the scenarios over the base headers of the DESCRIBE answer
+// and the forms of a=control, against a camera that accepts SETUP only at a
+// URL RFC 2326 C.1.1 gives for the track (fakecam.SetupURLs) and answers 404
+// anywhere else.
+func setupURLs() []*scenario {
+	var out []*scenario
+	i := 0
+	for _, base := range []string{"none", "slash", "noslash", "althost", "location", "both"} {
+		for _, control := range []string{"", "path", "abs", "star"} {
+			for _, audio := range []bool{false, true} {
+				sc := &scenario{Audio: audio, Base: base, Control: control, Creds: "right", User: "admin", Pass: "pw", Initial: 3, Consumers: 1, Live: 4,
+					End: int(fakecam.AfterEOF), Mode: []string{"direct", "direct", "rtsp"}[i%3],
+					URLShape: []string{"", "deep", "root", "nopath", "query", ""}[i%6], DirRoute: i%7 == 6, TrailingSlash: i%2 == 0}
+				if sc.DirRoute {
+					sc.URLShape = ""
+				}
+				if i%5 == 0 {
+					sc.Steps[fakecam.SetupVideo] = fakecam.Behaviour{Kind: fakecam.Digest401, N: 1}
+				}
+				sc.Name = fmt.Sprintf("Content-Base %s, control form %q", base, control)
+				out = append(out, sc)
+				i++
+			}
+		}
+	}
+	return out
+}
+
+// TestSetupURLs: a healthy camera is pulled whatever base headers it sends and
+// however it spells its control attributes; every SETUP goes to a URL at which
+// the camera serves the track.
+func TestSetupURLs(t *testing.T) {
+	scs := setupURLs()
+	evid.ClassN("enumerated (base header x control form) scenarios", int64(len(scs)))
+	runBatch(t, "setup-url", scs)
+}
+
 // TestReplayFile re-runs one saved case (a scenario, a sequential-requests case
 // or a simultaneous-requests case, told apart by the check name) without rapid.
 // Generated RTP programmes are not part of the rendering; the replay uses the
@@ -543,6 +584,12 @@ func genScenario(t *rapid.T) *scenario {
 		}
 		sc.SDPShape = rapid.SampledFrom(shapes).Draw(t, "sdpShape")
 		sc.Audio = true
+	}
+	if rapid.IntRange(0, 2).Draw(t, "base?") == 0 {
+		sc.Base = rapid.SampledFrom([]string{"none", "noslash", "althost", "location", "both"}).Draw(t, "base")
+	}
+	if rapid.IntRange(0, 3).Draw(t, "control?") == 0 {
+		sc.Control = rapid.SampledFrom([]string{"path", "abs", "star"}).Draw(t, "control")
 	}
 	sc.SessionTimeout = rapid.Bool().Draw(t, "sessionTimeout")
 	sc.CacheGop = rapid.Bool().Draw(t, "cacheGop") && sc.Mode != "rtsp"
